@@ -94,9 +94,12 @@ def _random_history(args):
             p = rng.choice(["A", "A", "B"])
             other = "B" if p == "A" else "A"
             cls = rng.choice(["next", "next", "ahead", "ahead", "edge", "beyond", "same", "old", "wrongkey", "foreignkey",
-                              "wrongaad", "reroute", "toX", "payload", "tag", "inner", "trunc", "replay", "replay"])
+                              "wrongaad", "reroute", "toX", "payload", "tag", "inner", "trunc", "replay", "replay",
+                              "otheraddr", "unknownid", "unknownid"])
             if cls == "replay" and hist:
                 a, bit, trunc = rng.choice(hist)
+                if rng.random() < 0.3:
+                    a = dict(a, **{"from": rng.choice(["A", "B", "X"])})
             else:
                 lastp = max(cur[p], 0)
                 d = {"next": 1, "ahead": rng.randrange(2, 99), "edge": rng.choice([98, 99]), "beyond": rng.choice([100, 101, 150, 1000]),
@@ -104,7 +107,7 @@ def _random_history(args):
                 n = lastp + d
                 if n < 0 or n > 65535:
                     n = lastp + 1
-                a = {"to": p, "k": p, "aad": p, "n": n, "g": n, "iid": rng.randrange(1, len(D.FORMATS) + 1),
+                a = {"from": p, "to": p, "k": p, "aad": p, "n": n, "g": n, "iid": rng.randrange(1, len(D.FORMATS) + 1),
                      "val": rng.randrange(1, D.NVALS + 1), "dmg": "none"}
                 bit = trunc = None
                 if cls == "wrongkey":
@@ -117,6 +120,14 @@ def _random_history(args):
                     a["to"] = other
                 elif cls == "toX":
                     a["to"] = "X"
+                    a["from"] = rng.choice(["A", "B", "X"])
+                elif cls == "otheraddr":       # genuine, but received from another BLE address
+                    a["from"] = rng.choice([other, "X"])
+                elif cls == "unknownid":       # header id of no loaded pairing, received from a pairing's address
+                    a["to"] = "X"
+                    a["aad"] = rng.choice(["X", "X", p])
+                    a["k"] = rng.choice([p, p, "X"])
+                    a["from"] = rng.choice([p, p, other])
                 elif cls == "payload":
                     a["dmg"] = "payload"
                     bit = rng.randrange(96)
@@ -149,7 +160,7 @@ def _bit_sweep(args):
     try:
         d = rng.choice([1, 1, 2, 50, 99])
         n = start["A"] + d
-        base = {"to": "A", "k": "A", "aad": "A", "n": n, "g": n, "iid": rng.randrange(1, len(D.FORMATS) + 1),
+        base = {"from": "A", "to": "A", "k": "A", "aad": "A", "n": n, "g": n, "iid": rng.randrange(1, len(D.FORMATS) + 1),
                 "val": rng.randrange(1, D.NVALS + 1), "dmg": "none"}
         for rnd in range(2):
             for bit in range(128):
@@ -274,8 +285,9 @@ def run(ctx):
         if ctx.replay:
             return _replay(ctx, tmp)
         # ---------------- (A) design level
-        small = _cfg(tmp, "BleBroadcast_small.cfg", () if ctx.thorough else (("Starts = {2, 5}", "Starts = {2}"),))
-        ctx.tlc("ble/BleBroadcast", small, label="W=3, two pairings + foreign key, histories <= 3, exhaustive", timeout=900)
+        small = _cfg(tmp, "BleBroadcast_small.cfg", () if ctx.thorough else (("MaxSteps = 3", "MaxSteps = 2"),))
+        ctx.tlc("ble/BleBroadcast", small, label=f"W=3, two pairings + unknown id/key, any advertiser address, histories <= "
+                f"{ctx.pick(2, 3)}, exhaustive", timeout=1500)
         deep = _cfg(tmp, "BleBroadcast_deep.cfg", (("MaxSteps = 6", "MaxSteps = 7"),) if ctx.thorough else ())
         ctx.tlc("ble/BleBroadcast", deep, ignore_cover=("InstallKey",), label="W=3, one pairing, histories <= 6/7, exhaustive",
                 timeout=900)
@@ -290,7 +302,7 @@ def run(ctx):
         if not jobs:
             raise MachineryError("no cases exported")
         ncases = len(jobs)
-        jobs += _jobs_from_behaviours(ctx, tmp, ctx.pick(40, 300), ctx.pick(10, 12))
+        jobs += _jobs_from_behaviours(ctx, tmp, ctx.pick(25, 150), ctx.pick(10, 12))
         nbeh = len(jobs) - ncases
         if nbeh == 0:
             raise MachineryError("no behaviours produced by tlc -simulate")
